@@ -208,6 +208,16 @@ theorem converge_text (ps : List (List Char × Doc)) (h : ∀ p ∈ ps, Reads p.
     have := (fromSources_reads (ps ++ List.replicate (k + 1) p) (hall (k + 1)) sk).2 (by rw [e2]; exact h3 hk)
     rwa [e1] at this
 
+/-- **C01 on texts, any extension**: feeding any further source texts never removes a previously
+admitted document from the shape -/
+theorem many_more_text (ps rs : List (List Char × Doc)) (h : ∀ p ∈ ps ++ rs, Reads p.1 p.2)
+    (s s' : Shape) (x : Doc) (h1 : fromSources (ps.map (·.1)) = .ok s)
+    (h2 : fromSources (ps.map (·.1) ++ rs.map (·.1)) = .ok s') (hx : admits s x = true) :
+    admits s' x = true := by
+  have e1 := (fromSources_reads ps (fun p hp => h p (List.mem_append.2 (Or.inl hp))) s).1 h1
+  have e2 := (fromSources_reads (ps ++ rs) h s').1 (by simpa using h2)
+  exact many_more (ps.map (·.2)) (rs.map (·.2)) s s' x e1 (by simpa using e2) hx
+
 /-- **C09 on texts, any re-feeding order**: after the source texts `ps`, feeding any sequence `rs` of
 texts that are already among the sources (any order, any multiplicity, interleaved) succeeds and keeps
 the meaning of the shape -/
